@@ -116,11 +116,12 @@ impl<R: Read + Send> Iterator for ChunkIter<R> {
         let mut vec = Vec::with_capacity(self.size_hint.min(min_size));
 
         // check if some bytes exist in the buffer and if yes, use them
-        let open_buf_len = self.buf.len() - self.pos;
+        // (but not more than the minimum chunk size - the rest stays in the buffer)
+        let open_buf_len = (self.buf.len() - self.pos).min(min_size);
         if open_buf_len > 0 {
             vec.resize(open_buf_len, 0);
-            vec.copy_from_slice(&self.buf[self.pos..]);
-            self.pos = self.buf.len();
+            vec.copy_from_slice(&self.buf[self.pos..self.pos + open_buf_len]);
+            self.pos += open_buf_len;
             min_size -= open_buf_len;
         }
 
